@@ -89,9 +89,19 @@ func c06Gen(r *RNG, id string, prop string) *Case {
 	base := randSeq(r, w, symACGT, false)
 	var qs, ts []string
 	if wide {
-		qs = append(qs, base)
+		// the query is unresolved over a tract: a target resolved there is more complete without being compared there
+		qb := []byte(base)
+		t0 := r.Intn(w - 300)
+		tl := r.Range(20, 200)
+		for j := t0; j < t0+tl; j++ {
+			qb[j] = 'N'
+		}
+		qs = append(qs, string(qb))
 		for i := 0; i < nt; i++ {
 			b := []byte(base)
+			if r.Bool() {
+				copy(b[t0:t0+tl], qb[t0:t0+tl])
+			}
 			for d := r.PickInt([]int{1, 1, 1, 2}); d > 0; d-- {
 				j := r.Intn(w)
 				b[j] = r.Pick(strings.ReplaceAll(symACGT, string(base[j]), ""))
